@@ -97,11 +97,15 @@ def lua_string(rng, name):
     return q + body + q
 
 
-def require_piece(rng, name, opt):
+GAPS = (b'', b'', b'', b' ', b'\t', b'  ', b' --[[lib]] ')
+
+
+def require_piece(rng, name, opt, gap=b''):
+    """gap: what stands between the name `require` and its opening parenthesis (one style per file)."""
     arg = lua_string(rng, name)
     if opt:
         arg += rng.choice((b',{use_game_loop=true}', b', { use_game_loop = true }'))
-    call = b'require(' + arg + b')'
+    call = b'require' + gap + b'(' + (b' ' if gap and rng.random() < 0.5 else b'') + arg + b')'
     form = rng.choice(('stmt', 'assign', 'local', 'field', 'callarg', 'chain', 'nestedfn', 'index', 'in_if', 'in_else', 'in_shortif',
                        'in_loop', 'in_cond'))
     if form == 'stmt':
@@ -183,7 +187,12 @@ def build_graph(rng, root):
         if t.file_dir == from_dir:
             return t.base.encode()
         if from_dir == '' and t.file_dir == 'lib':
-            return b'lib/' + t.base.encode()
+            # (a doubled separator is another spelling of the same file, and a name of its own in the package table)
+            if not hasattr(t, 'sep'):
+                t.sep = rng.choice((b'/', b'/', b'/', b'//'))
+                if t.sep == b'//':
+                    feats.add('required_name_with_doubled_separator')
+            return b'lib' + t.sep + t.base.encode()
         return None   # lib -> main dir is not expressible without ../
 
     files = {}
@@ -212,8 +221,11 @@ def build_graph(rng, root):
             slots = {'empty_file': [], 'comments_only': [(b'-- nothing here yet\n--[[ todo ]]\n', True)],
                      'game_loop_only': [(b'function _init()\n cls()\nend\n', 'gameloop'), (b'function _draw() end\n', 'gameloop')]}[kind_e]
             feats.add('package_without_remaining_code:' + kind_e)
+        gap = rng.choice(GAPS)
+        if gap and deps:
+            feats.add('blank_or_comment_between_require_and_parenthesis')
         for d, nm in deps:
-            txt, form = require_piece(rng, nm, pkgs[d].opt)
+            txt, form = require_piece(rng, nm, pkgs[d].opt, gap)
             feats.add('require_form:' + form)
             slots.insert(rng.randint(0, len(slots)), (txt, True))
         ngl = rng.choice((0, 1, 1, 2))
@@ -303,11 +315,14 @@ def build_graph(rng, root):
             expected.setdefault(nm, pkgs[d])
             emit(d)
 
+    main_gap = rng.choice(GAPS)
     main_slots = [(code_piece(rng), True)]
     for j in roots:
         nm = req_name(j, '')
         expected.setdefault(nm, pkgs[j])
-        txt, form = require_piece(rng, nm, pkgs[j].opt)
+        txt, form = require_piece(rng, nm, pkgs[j].opt, main_gap)
+        if main_gap:
+            feats.add('blank_or_comment_between_require_and_parenthesis')
         feats.add('require_form:' + form)
         main_slots.insert(rng.randint(0, len(main_slots)), (txt, True))
         emit(j)
@@ -322,7 +337,7 @@ def build_graph(rng, root):
             alias.exp = pkgs[j].exp_other
             nm = (pkgs[j].base + '.lua').encode()
             expected[nm] = alias
-            txt, form = require_piece(rng, nm, alias.opt)
+            txt, form = require_piece(rng, nm, alias.opt, main_gap)
             main_slots.insert(rng.randint(0, len(main_slots)), (txt, True))
             feats.add('one_file_two_names_opposite_options')
     if rng.random() < 0.3:
@@ -680,7 +695,7 @@ def gates(m, tier):
               'require_form:stmt', 'require_form:assign', 'require_form:local', 'require_form:field', 'require_form:callarg',
               'require_form:chain', 'require_form:nestedfn', 'require_form:in_if', 'require_form:in_else', 'require_form:in_shortif',
               'require_form:in_loop', 'require_form:in_cond', 'error:missing', 'error:noargs', 'error:threeargs', 'error:nonstring',
-              'error:badoption', 'error:offpath_next_to_main', 'error:offpath_next_to_package', 'error:offpath_env', 'main_ends_with_return', 'gameloop_with_comment_before_or_code_after', 'gameloop_name_as_last_component', 'dotted_gameloop_name', 'package_name_non_ascii', 'directory_named_like_package', 'two_files_match_first_entry_wins', 'found_via_pattern_with_placeholder_in_directory',
+              'error:badoption', 'error:offpath_next_to_main', 'error:offpath_next_to_package', 'error:offpath_env', 'main_ends_with_return', 'blank_or_comment_between_require_and_parenthesis', 'required_name_with_doubled_separator', 'gameloop_with_comment_before_or_code_after', 'gameloop_name_as_last_component', 'dotted_gameloop_name', 'package_name_non_ascii', 'directory_named_like_package', 'two_files_match_first_entry_wins', 'found_via_pattern_with_placeholder_in_directory',
               'package_without_remaining_code:empty_file', 'package_without_remaining_code:comments_only', 'package_without_remaining_code:game_loop_only', 'one_file_two_names_opposite_options', 'main_starts_with_comment'):
         if f.get(k, 0) < 2:
             missed.append('%s seen %d times' % (k, f.get(k, 0)))
